@@ -183,8 +183,116 @@ static std::string heap_call(const std::vector<std::string>& a_in) {
     return res;
 }
 
+// ---------------------------------------------------------------- C20: the k-th allocation of a call fails
+// oom <api> <args...>: the call is first run fault-free to count its allocations N, then N more times with allocation k = 0..N-1 failing.
+// For every k the call must exit with std::bad_alloc, everything it allocated must have been released (live-block balance), the
+// objects involved must be in one of the allowed states, and a final fault-free call must still give the reference result.
+struct OomResult { std::string outcome; std::string state; };
+// (templates, not std::function: type erasure would allocate inside the watched region)
+template <class Reset, class Call, class StateOk>
+static std::string oom_sweep(const Reset& reset, const Call& call, const StateOk& state_ok, bool stateless = true) {
+    long live0 = hw::g_live;
+    long N = 0; std::string ref_outcome, ref_state;
+    { reset(); hw::begin(1, -1); OomResult ref = call(); hw::Report r0 = hw::end(); N = r0.allocs; ref_outcome = ref.outcome; ref_state = ref.state; }
+    long bad = 0, leaks = 0, wrong_state = 0, other = 0; char prob[200]; prob[0] = 0;
+    for (long k = 0; k < N; ++k) {
+        reset();
+        long base = hw::g_live; bool escaped = false; std::string outcome, state;
+        hw::begin(1, k);
+        try { OomResult r = call(); hw::g_fail_at = -1; outcome = r.outcome; state = r.state; } catch (...) { escaped = true; }
+        hw::end();
+        if (escaped) { ++other; if (!prob[0]) snprintf(prob, sizeof prob, "exception-escaped-the-harness k=%ld", k); continue; }
+        if (outcome == "throw:bad_alloc") ++bad;
+        else if (outcome == "ok") { /* the failing allocation was one of the harness's own result conversions */ }
+        else { ++other; if (!prob[0]) snprintf(prob, sizeof prob, "k=%ld outcome=%s", k, outcome.c_str()); }
+        bool succeeded = outcome == "ok";
+        { std::string().swap(outcome); }
+        if (stateless) { std::string().swap(state); if (hw::g_live != base) { ++leaks; if (!prob[0]) snprintf(prob, sizeof prob, "leak k=%ld blocks=%ld", k, hw::g_live - base); } }
+        else if (!succeeded && !state_ok(state)) { ++wrong_state; if (!prob[0]) snprintf(prob, sizeof prob, "state k=%ld %.90s", k, state.c_str()); }
+    }
+    std::string again_outcome, again_state;
+    { reset(); hw::begin(1, -1); OomResult again = call(); hw::end(); again_outcome = again.outcome; again_state = again.state; }
+    if (!prob[0] && (again_outcome != ref_outcome || (stateless && again_state != ref_state))) snprintf(prob, sizeof prob, "library-unusable-after-faults");
+    (void)live0;
+    std::string res = "ref=" + ref_outcome;
+    if (!prob[0]) return res + " every-failure=bad_alloc no-leak state-ok usable";
+    return res + " PROBLEM " + prob + " (bad_alloc=" + std::to_string(bad) + " other=" + std::to_string(other) + " leaks=" + std::to_string(leaks) + " wrong-state=" + std::to_string(wrong_state) + " of " + std::to_string(N) + ")";
+}
+template <class F> static OomResult guard_call(const F& f) {
+    OomResult r; r.state = "";
+    try { r.state = f(); r.outcome = "ok"; }
+    catch (const std::bad_alloc&) { r.outcome = "throw:bad_alloc"; }
+    catch (const std::invalid_argument&) { r.outcome = "throw:invalid_argument"; }
+    catch (const std::runtime_error&) { r.outcome = "throw:runtime_error"; }
+    catch (const std::exception& e) { r.outcome = std::string("throw:other:") + e.what(); }
+    return r;
+}
+static std::string oom_call(const std::vector<std::string>& a) {
+    const std::string& f = a[1];
+    Bytes A2 = a.size() > 3 ? bx(a[3]) : Bytes(), A3 = a.size() > 4 ? bx(a[4]) : Bytes(), A4 = a.size() > 5 ? bx(a[5]) : Bytes();
+    std::string s2 = str_of(A2), s3 = str_of(A3);
+    auto none = []() {}; auto any = [](const std::string&) { return true; };
+    // ---- stateless throwing APIs: result bytes are the state (must equal the reference when the call succeeds) ----
+    if (f == "gethash") return oom_sweep(none, [&]() { return guard_call([&]() { return hx(get_hash(A2.data(), A2.size(), th(a[2]))); }); }, any);
+    if (f == "hashstr") return oom_sweep(none, [&]() { return guard_call([&]() { return th(a[2]) == TypeHash::SHA1 ? hmac_hash::sha1(s2) : th(a[2]) == TypeHash::SHA256 ? hmac_hash::sha256(s2) : hmac_hash::sha512(s2); }); }, any);
+    if (f == "hmac") return oom_sweep(none, [&]() { return guard_call([&]() { return hx(get_hmac(A2.data(), A2.size(), A3.data(), A3.size(), th(a[2]))); }); }, any);
+    if (f == "hmacstr") return oom_sweep(none, [&]() { return guard_call([&]() { return get_hmac(A2, s3, th(a[2]), true, false); }); }, any);
+    if (f == "hmacctx") return oom_sweep(none, [&]() { return guard_call([&]() { HmacContext c(th(a[2])); c.init(A2.data(), A2.size()); c.update(A3.data(), A3.size()); uint8_t o[64]; c.final(o, 64); return hx(o, 20); }); }, any);
+    if (f == "pbkdf2") return oom_sweep(none, [&]() { return guard_call([&]() { return hx(pbkdf2(A2.data(), A2.size(), A3.data(), A3.size(), (uint32_t)atol(a[5].c_str()), (size_t)atol(a[6].c_str()), ph(a[2]))); }); }, any);
+    if (f == "pbkdf2_secure") return oom_sweep(none, [&]() { return guard_call([&]() { auto r = pbkdf2_secure(A2.data(), A2.size(), A3.data(), A3.size(), (uint32_t)atol(a[5].c_str()), (size_t)atol(a[6].c_str()), ph(a[2])); return hx(r.data(), r.size()); }); }, any);
+    if (f == "pepper") return oom_sweep(none, [&]() { return guard_call([&]() { return hx(pbkdf2_with_pepper(A2.data(), A2.size(), A3.data(), A3.size(), A4.data(), A4.size(), 2, 40, ph(a[2]))); }); }, any);
+    if (f == "hkdfx") return oom_sweep(none, [&]() { return guard_call([&]() { return hx(hkdf_extract_sha256(A2.data(), A2.size(), A3.data(), A3.size())); }); }, any);
+    if (f == "hkdfe") return oom_sweep(none, [&]() { return guard_call([&]() { return hx(hkdf_expand_sha256(A2.data(), A2.size(), A3.data(), A3.size(), (size_t)atol(a[5].c_str()))); }); }, any);
+    if (f == "hkdfkiv") return oom_sweep(none, [&]() { return guard_call([&]() { KeyIv r = hkdf_key_iv_256(A2.data(), A2.size(), A3.data(), A3.size(), std::string("ctx")); return hx(r.key.data(), 32); }); }, any);
+    if (f == "hotp") return oom_sweep(none, [&]() { return guard_call([&]() { return std::to_string(get_hotp_code(A2.data(), A2.size(), 77, 6, th(a[2]))); }); }, any);
+    if (f == "totpvalid") return oom_sweep(none, [&]() { return guard_call([&]() { return std::string(bool_s(is_totp_token_valid(1, A2.data(), A2.size(), (uint64_t)59, 30, 6, th(a[2])))); }); }, any);
+    if (f == "tokgen") return oom_sweep(none, [&]() { return guard_call([&]() { return generate_time_token(A2, 60, th(a[2])); }); }, any);
+    if (f == "tokgenfp") return oom_sweep(none, [&]() { return guard_call([&]() { return generate_time_token(A2, std::string("fingerprint-0123456789"), 60, th(a[2])); }); }, any);
+    if (f == "tokval") return oom_sweep(none, [&]() { return guard_call([&]() { return std::string(bool_s(is_token_valid(s3, A2, 60, th(a[2])))); }); }, any);
+    if (f == "tokvalfp") return oom_sweep(none, [&]() { return guard_call([&]() { return std::string(bool_s(is_token_valid(s3, A2, std::string("fingerprint-0123456789"), 60, th(a[2])))); }); }, any);
+    if (f == "tokgen_secure") { secure_buffer<uint8_t> sk = sbuf(A2); return oom_sweep(none, [&]() { return guard_call([&]() { return generate_time_token(sk, 60, th(a[2])); }); }, any); }
+    if (f == "b64enc") return oom_sweep(none, [&]() { return guard_call([&]() { return base64_encode(A2); }); }, any);
+    if (f == "b32enc") return oom_sweep(none, [&]() { return guard_call([&]() { return base32_encode(A2); }); }, any);
+    if (f == "b36enc") return oom_sweep(none, [&]() { return guard_call([&]() { return base36_encode(A2); }); }, any);
+    if (f == "tohex") return oom_sweep(none, [&]() { return guard_call([&]() { return to_hex(s2, false); }); }, any);
+    // ---- secure_buffer: after a failed operation the buffer holds its old contents, zeros of its old size, or is empty ----
+    if (f.compare(0, 3, "sb_") == 0) {
+        secure_buffer<uint8_t> other = sbuf(A3); std::string res; res.reserve(400); std::string olds = hx(A2), zeros = hx(Bytes(A2.size(), 0)), news = hx(A3);
+        long live_before = hw::g_live; secure_buffer<uint8_t>* x = 0;
+        auto reset = [&]() { delete x; x = new secure_buffer<uint8_t>(sbuf(A2)); };
+        auto st = [&]() { return hx(x->data(), x->size()); };
+        auto ok_state = [&](const std::string& s) { return s == olds || s == zeros || s == "-" || s == news || s.compare(0, olds == "-" ? 0 : olds.size(), olds == "-" ? "" : olds) == 0; };
+        if (f == "sb_copyassign") res = oom_sweep(reset, [&]() { OomResult r = guard_call([&]() { *x = other; return std::string(); }); hw::g_fail_at = -1; r.state = st(); return r; }, ok_state, false);
+        else if (f == "sb_assign") res = oom_sweep(reset, [&]() { OomResult r = guard_call([&]() { x->assign(A3.data(), A3.size()); return std::string(); }); hw::g_fail_at = -1; r.state = st(); return r; }, ok_state, false);
+        else if (f == "sb_resize") res = oom_sweep(reset, [&]() { OomResult r = guard_call([&]() { x->resize((size_t)atol(a[4].c_str())); return std::string(); }); hw::g_fail_at = -1; r.state = st(); return r; }, ok_state, false);
+        else if (f == "sb_ctor") res = oom_sweep(reset, [&]() { OomResult r = guard_call([&]() { *x = secure_buffer<uint8_t>((size_t)atol(a[4].c_str())); return std::string(); }); hw::g_fail_at = -1; r.state = st(); return r; }, ok_state, false);
+        else if (f == "sb_copyctor") res = oom_sweep(reset, [&]() { OomResult r = guard_call([&]() { secure_buffer<uint8_t> t(other); *x = std::move(t); return std::string(); }); hw::g_fail_at = -1; r.state = st(); return r; }, ok_state, false);
+        else if (f == "sb_string") res = oom_sweep(reset, [&]() { OomResult r = guard_call([&]() { std::string s = s3; *x = secure_buffer<uint8_t>(std::move(s)); return std::string(); }); hw::g_fail_at = -1; r.state = st(); return r; }, ok_state, false);
+        else res = "HARNESS-unknown-sb-op";
+        delete x; if (hw::g_live != live_before) res += " PROBLEM leak-after-destruction blocks=" + std::to_string(hw::g_live - live_before); return res;
+    }
+    // ---- secret_string: afterwards it reveals exactly its previous or its new bytes, or reports an integrity error ----
+    if (f.compare(0, 3, "ss_") == 0) {
+        std::string prev = hx(A2), next = hx(A3); std::string res; res.reserve(400); (void)secret_string::verif_process_key(); long live_before = hw::g_live; secret_string* x = 0;
+        auto reset = [&]() { delete x; x = new secret_string(A2.data(), A2.size()); if (f == "ss_rotate_revealed" || f == "ss_set_revealed") (void)x->reveal_copy(); };   // a successful reveal before the faulty operation
+        auto st = [&]() { try { return "reveals:" + hxs(x->reveal_copy()); } catch (const std::runtime_error&) { return std::string("integrity-error"); } catch (const std::bad_alloc&) { return std::string("bad_alloc-on-reveal"); } };
+        auto ok_state = [&](const std::string& s) { return s == "reveals:" + prev || s == "reveals:" + next || s == "integrity-error"; };
+        if (f == "ss_set") res = oom_sweep(reset, [&]() { OomResult r = guard_call([&]() { x->set(A3.data(), A3.size()); return std::string(); }); hw::g_watch = false; hw::g_fail_at = -1; r.state = st(); return r; }, ok_state, false);
+        else if (f == "ss_set_revealed") res = oom_sweep(reset, [&]() { OomResult r = guard_call([&]() { x->set(A3.data(), A3.size()); return std::string(); }); hw::g_watch = false; hw::g_fail_at = -1; r.state = st(); return r; }, ok_state, false);
+        else if (f == "ss_rotate" || f == "ss_rotate_revealed") res = oom_sweep(reset, [&]() { OomResult r = guard_call([&]() { x->rotate_nonce(); return std::string(); }); hw::g_watch = false; hw::g_fail_at = -1; r.state = st(); return r; }, ok_state, false);
+        else if (f == "ss_rotate_twice") res = oom_sweep(reset, [&]() { OomResult r = guard_call([&]() { x->rotate_nonce(); return std::string(); }); hw::g_watch = false;
+                                                                      if (r.outcome != "ok") { try { x->rotate_nonce(); } catch (...) {} } hw::g_fail_at = -1; r.state = st(); return r; }, ok_state, false);
+        else if (f == "ss_reveal") res = oom_sweep(reset, [&]() { OomResult r = guard_call([&]() { return x->reveal_copy(); }); hw::g_watch = false; hw::g_fail_at = -1; r.state = st(); return r; }, ok_state, false);
+        else if (f == "ss_movein") res = oom_sweep(reset, [&]() { OomResult r = guard_call([&]() { *x = secret_string(A3.data(), A3.size()); return std::string(); }); hw::g_watch = false; hw::g_fail_at = -1; r.state = st(); return r; }, ok_state, false);
+        else res = "HARNESS-unknown-ss-op";
+        delete x; if (hw::g_live != live_before) res += " PROBLEM leak-after-destruction blocks=" + std::to_string(hw::g_live - live_before); return res;
+    }
+    return "HARNESS-unknown-oom-api";
+}
+
 static std::string run(const std::vector<std::string>& a) {
     const std::string& op = a[0];
+    if (op == "oom") return oom_call(a);
     if (op == "heap") return heap_call(a);
     if (op == "sshist") return sshist(std::vector<std::string>(a.begin() + 1, a.end()));
     if (op == "sbhist") { std::vector<std::string> ops(a.begin() + 2, a.end()); return a[1] == "1" ? SbHist<true>::run(ops) : SbHist<false>::run(ops); }
